@@ -3,7 +3,7 @@ import Driver.Common
 namespace SPD
 open SP
 
-def slotsCmds : List String := ["civil", "idx2t", "t2idx", "size", "pidx2t", "pt2idx", "scan"]
+def slotsCmds : List String := ["civil", "idx2t", "t2idx", "size", "pidx2t", "pt2idx", "scan", "scanw"]
 
 def handleSlots (toks : List String) : String :=
   match toks with
@@ -52,6 +52,15 @@ def handleSlots (toks : List String) : String :=
     match parsePat pat, ints? [s, e], parseNat? m with
     | some pat, some [s, e], some m =>
       if m == 0 || s < 0 || e < 0 || s ≥ pat.length || e ≥ pat.length then "bad-op" else
+      if impl == "py" then "iv " ++ showPairs (pyScan pat s e m)
+      else if impl == "cy" then "iv " ++ showPairs (cyScan pat s e m) else "bad-op"
+    | _, _, _ => "bad-op"
+  | ["scanw", impl, pat, s, so, e, eo, m] =>
+    -- a query window whose ends lie inside slots: `collectIntervals` turns both ends into slot indices with `dateToIdx`
+    -- (the floor, C17's conversion theorems), so the answer is that of the window of whole slots [s, e]
+    match parsePat pat, ints? [s, so, e, eo], parseNat? m with
+    | some pat, some [s, so, e, eo], some m =>
+      if m == 0 || s < 0 || e < 0 || s ≥ pat.length || e ≥ pat.length || so < 0 || so ≥ 3600 || eo < 0 || eo ≥ 3600 then "bad-op" else
       if impl == "py" then "iv " ++ showPairs (pyScan pat s e m)
       else if impl == "cy" then "iv " ++ showPairs (cyScan pat s e m) else "bad-op"
     | _, _, _ => "bad-op"
